@@ -10,8 +10,9 @@ System (grid G0 = one 3-cell grid, G1 = 2-cell grid + 1-cell fracture + 2-cell i
   q_k = sum_v D[k,v]*v*v + E[k,v]*v  (cell-local, E[k,k] dominant)  + const
         + (for the first equation in set order) a non-local coupling  (A@v0)*(B@v1)
         + (G1) couplings to/from lam through small dense integer matrices.
-  E[q_b, c] is zero in cell 0, so d q_b / d c vanishes there exactly when c[0] == 0:
-  state s0 has c[0] == 0 (sparser secondary block), state s1 does not.
+  q_b additionally contains c[cell 1]*c[cell 0] in its cell-0 row: the derivative with respect
+  to c[cell 1] is c[cell 0]; state s0 has c[cell 0] == 0, so at s0 that entry is an exactly
+  zero *stored* entry and the secondary block decouples into finer blocks than at state s1.
 
 Reference bookkeeping (rows per equation and grid, columns per atomic variable) is derived
 from hard-coded grid sizes, verified against the real grids when the system is built.
@@ -219,14 +220,21 @@ class LocalSystem:
                         evec = _ivec(n, 20 * (ord(k) - 96) + iv, 15, 19)
                     else:
                         evec = _ivec(n, 30 * (ord(k) - 96) + iv, 1, 4)
-                    if k == "b" and v == "c":
-                        evec[0] = 0.0  # derivative 2*D*c vanishes in cell 0 iff c[0] == 0
                     t = D(dvec) * self.md[v] * self.md[v] + D(evec) * self.md[v]
                     eq = t if eq is None else eq + t
                 if pos == 0:
                     # non-local coupling in the first equation
                     v0, v1 = VARS[0], VARS[1]
                     eq = eq + (S(_imat(n, n, 2)) @ self.md[v0]) * (S(_imat(n, n, 3)) @ self.md[v1])
+                if k == "b":
+                    # q_b[cell 0] += c[cell 1] * c[cell 0]: the derivative with respect to
+                    # c[cell 1] is c[cell 0], an exactly zero (but stored) entry at state s0 which
+                    # is the only link between the cell-0 and the cell-1 block of A_ss
+                    shift = np.zeros((n, n))
+                    shift[0, 1] = 1.0
+                    g = np.zeros(n)
+                    g[0] = 1.0
+                    eq = eq + D(g) * (S(shift) @ self.md["c"]) * self.md["c"]
                 if grid == "G1" and k == "a":
                     eq = eq + S(_imat(n, 2, 4)) @ self.md["lam"]
                 eq = eq + D(_ivec(n, ord(k), -5, 5))
